@@ -42,6 +42,8 @@ fn build(bytes: &[u8], max: usize) -> Result<String, String> {
 }
 
 fn msg_class(m: &str) -> String {
+    // backtick-quoted names dropped; bare words that are not plain lower-case English (generated
+    // identifiers) replaced by `_`
     let mut out = String::new();
     let mut inside = false;
     for c in m.chars() {
@@ -49,10 +51,21 @@ fn msg_class(m: &str) -> String {
             inside = !inside;
             out.push('`');
         } else if !inside {
-            out.push(if c.is_ascii_digit() { '#' } else { c });
+            out.push(c);
         }
     }
-    out.chars().take(80).collect()
+    let words: Vec<String> = out
+        .split(' ')
+        .map(|w| {
+            let core = w.trim_matches(|c: char| !c.is_alphanumeric() && c != '_');
+            if core.is_empty() || core.chars().all(|c| c.is_ascii_lowercase()) || core.chars().all(|c| c.is_ascii_uppercase()) {
+                w.to_string()
+            } else {
+                "_".to_string()
+            }
+        })
+        .collect();
+    words.join(" ").chars().take(80).collect()
 }
 
 pub fn check_document(ctx: &mut Ctx, bytes: &[u8], max: usize, source: &str) {
